@@ -597,8 +597,8 @@ def alphabet(ctx: Ctx, rule="R-C07-ALPHABET") -> None:
         ctx.check(ok, rule, rk, f"`{t.label[:50]}` -> raise", "invalid value rejected", f"RoutingKey: `{t.label[:60]}` does not reject an invalid value", instance=f"RoutingKey: {t.label[:40]}")
     # split / join agreement in redis utils
     u = ctx.prog.module("repid.connections.redis.utils")
-    mnc = u.functions["mnc"]
-    qnc = u.functions["qnc"]
+    mnc = ctx.func("repid.connections.redis.utils.mnc")
+    qnc = ctx.func("repid.connections.redis.utils.qnc")
 
     mt = set()
     for v in C.returned_values(mnc):
@@ -619,7 +619,7 @@ def alphabet(ctx: Ctx, rule="R-C07-ALPHABET") -> None:
               and n.value.args and C.is_const(n.value.args[0], ":")]
         ok = len(sp) == 1 and isinstance(sp[0].targets[0], ast.Tuple) and len(sp[0].targets[0].elts) == nparts and len(sp[0].value.args) == 1
         ctx.check(ok, rule, fn, f"{fname}: split(':') into {nparts} parts", "as many parts as the constructor joins", f"{fname} unpacks {unparse(sp[0]) if sp else '?'}", instance=f"{fname} parts")
-    pm = u.functions["parse_message_name"]
+    pm = ctx.func("repid.connections.redis.utils.parse_message_name")
     sp = [n for n in ast.walk(pm.node) if isinstance(n, ast.Assign) and isinstance(n.targets[0], ast.Tuple)][0]
     ret = [r for r in ast.walk(pm.node) if isinstance(r, ast.Return)][0]
     tn = [dotted(e) for e in sp.targets[0].elts]
@@ -627,14 +627,14 @@ def alphabet(ctx: Ctx, rule="R-C07-ALPHABET") -> None:
     ok = len(tn) == 5 and len(rt) == 4 and [dotted(rt[0]), dotted(rt[1]), dotted(rt[2])] == [tn[4], tn[3], tn[1]] and unparse(rt[3]) == f"int({tn[2]})"
     ctx.check(ok, rule, pm, "parse_message_name field order = mnc field order", "(parts[4], parts[3], parts[1], int(parts[2])) = (id, topic, queue, priority)",
               f"parse_message_name unpacks {unparse(sp.targets[0])} and returns {unparse(ret.value)}", instance="parse_message_name order")
-    fm = u.functions["full_message_name_from_short"]
+    fm = ctx.func("repid.connections.redis.utils.full_message_name_from_short")
     sp = [n for n in ast.walk(fm.node) if isinstance(n, ast.Assign) and isinstance(n.targets[0], ast.Tuple)][0]
     tn = [dotted(e) for e in sp.targets[0].elts]
     ret = [r for r in ast.walk(fm.node) if isinstance(r, ast.Return)][0]
     hs = [unparse(x.value) for x in ret.value.values if isinstance(x, ast.FormattedValue)] if isinstance(ret.value, ast.JoinedStr) else []
     ok = len(tn) == 4 and hs == [tn[1], tn[2], [p.arg for p in fm.params()][0]] and C.fstring_templates(fm, ret.value) == {"m:{}:{}:{}"}
     ctx.check(ok, rule, fm, "full_message_name_from_short = m:<queue part>:<priority part>:<short name>", "same shape as mnc", f"full_message_name_from_short returns {unparse(ret.value)}", instance="full name from short")
-    gm = u.functions["get_queue_marker"]
+    gm = ctx.func("repid.connections.redis.utils.get_queue_marker")
     ret = [r for r in ast.walk(gm.node) if isinstance(r, ast.Return)][0]
     ctx.check(unparse(ret.value) == "full_queue_name.split(':')[-1]", rule, gm, "queue marker = last part of the queue name", "split(':')[-1]", f"get_queue_marker returns {unparse(ret.value)}", instance="queue marker")
     from .C11 import redis_prefix_terminator
